@@ -1,4 +1,6 @@
 import WebrtcVerif.Base.Wire
+import WebrtcVerif.Drv.C16
+import WebrtcVerif.Drv.C10
 import WebrtcVerif.Drv.C37
 import WebrtcVerif.Drv.C09
 import WebrtcVerif.Drv.C07
@@ -84,6 +86,8 @@ def runLine (toks : List String) : String :=
   | "C07" :: rest => Drv.C07.run rest
   | "C09" :: rest => Drv.C09.run rest
   | "C37" :: rest => Drv.C37.run rest
+  | "C10" :: rest => Drv.C10.run rest
+  | "C16" :: rest => Drv.C16.run rest
   | _ => "bad-op"
 
 def judgeLine (toks : List String) : String :=
@@ -128,6 +132,8 @@ def judgeLine (toks : List String) : String :=
   | "C07" :: rest => Drv.C07.judge rest out
   | "C09" :: rest => Drv.C09.judge rest out
   | "C37" :: rest => Drv.C37.judge rest out
+  | "C10" :: rest => Drv.C10.judge rest out
+  | "C16" :: rest => Drv.C16.judge rest out
   | _ => "bad-judge"
 
 partial def loop (h : IO.FS.Stream) (out : IO.FS.Stream) (f : List String → String) : IO Unit := do
